@@ -6,6 +6,9 @@
  *                                preparePublicationsFileRequest (transport call-back = stub modelled on net_http_curl.c sendRequest)
  *   H_tcp            net_tcp.c   prepareRequest / prepareAggregationRequest / prepareExtendRequest / sendRequest / TcpClientCtx_free
  *   H_file           net_file.c  prepareRequest / prepareAggregationRequest / prepareExtendRequest / sendRequest / readResponse
+ *   H_client_new     net_http.c  KSI_AbstractHttpClient_new over net.c KSI_AbstractNetworkClient_new / KSI_AbstractNetEndpoint_new / ..._free
+ *                                (not registered on the unchanged tree - see NOTES_oom3_net.md, defects D6 / D3)
+ *   -DOOM3_NEW_MODEL: KSI_RequestHandle_new replaced by a model with the postcondition H_handle_new checks (the *_m jobs)
  * Real files included unmodified.  Plain mode, every allocation may fail in every combination
  * (--malloc-may-fail --malloc-fail-null), live funnel blocks are counted (g_live).  Statement checked everywhere:
  *   a failed allocation => an error is returned, the receiver is untouched and nothing the call allocated survives;
